@@ -103,6 +103,10 @@ func Exec(c Config) (res Result) {
 				e.NextBlock(bt.Next(e.Cur))
 			}
 			refresh()
+			if bt.Aimed {
+				bt.Aimed = false
+				g.QueueBoundaryPuts(2)
+			}
 			continue
 		}
 		tx := g.Next()
@@ -133,6 +137,7 @@ type BlockTimes struct {
 	R          *rand.Rand
 	Now        time.Time
 	AimWindows bool
+	Aimed      bool // the last Next() placed the block on a window boundary
 }
 
 func (b *BlockTimes) Next(s *obs.Snapshot) time.Time {
@@ -213,6 +218,7 @@ func (b *BlockTimes) aimWindow(s *obs.Snapshot) (time.Time, bool) {
 	sort.Slice(cands, func(i, j int) bool { return cands[i].Before(cands[j]) })
 	t := cands[0].Add(-[]time.Duration{0, time.Nanosecond, 500 * time.Millisecond, 999 * time.Millisecond}[b.R.Intn(4)])
 	if t.After(b.Now) {
+		b.Aimed = true
 		if os.Getenv("VERIF_DEBUG") != "" {
 			fmt.Printf("# DEBUG aimWindow: now %s -> %s (%d candidates)\n", b.Now, t, len(cands))
 		}
